@@ -4,8 +4,9 @@ import HmsProofs.Lemmas.SimSlots
 
 Expressions `Frag.okGE`: the pure fragment plus calls of top-level functions (arguments: all
 atoms except at most one) inside arithmetic, prefix operators, parentheses and `if`/`else`.
-Statements `Frag.okGS`: `let`, assignment, `if`, `while`, `loop`, `break`, `continue`,
-`return e`, call statements and `println(…)`. The emitted code is given by the pure functions
+Statements `Frag.okGS il rt` (`il`: inside a loop, `rt`: `return` allowed): `let`, assignment, `if`,
+`while`, `loop`, `break`, `continue`, `return e`, call statements, `println(…)`, `throw(a)` and
+`try { … } catch e { … }`. The emitted code is given by the pure functions
 `cgE`, `cgS`, `cgFn`.
 -/
 namespace HmsProofs.Sim
@@ -237,8 +238,20 @@ def cgS (mod fn : String) (φ : String → Option String) :
     let els := freshLabel mod after.2 "else"
     let ct := cgBS mod fn φ loops t { env with lm := els.2 }
     (cc.1 ++ [(.jumpIfFalse after.1, isp)] ++ ct.1 ++ [(.jump after.1, isp), (.label after.1, isp)], ct.2)
+  | loops, .exprS _ (.tryE tsp _ t catchIdent (.mk _ _ cstmts none)), env =>
+    let exc := freshLabel mod env.lm "exception_label"
+    let after := freshLabel mod exc.2 "after_catch_label"
+    let ct := cgBS mod fn φ [] t { env with lm := after.2 }
+    let fv := freshVar mod { ct.2 with scopes := [] :: ct.2.scopes } catchIdent
+    let cc := cgSs mod fn φ loops cstmts fv.2
+    ([(.setTry ((φ fn).getD "") exc.1, tsp)] ++ ct.1 ++
+      [(.popTry, tsp), (.jump after.1, tsp), (.label exc.1, tsp), (.setVar fv.1, tsp), (.popTry, tsp)] ++ cc.1 ++
+      [(.label after.1, tsp)], { cc.2 with scopes := cc.2.scopes.tail })
   | _, .exprS sp (.call csp cty (.ident isp ity name g f si) args sw), env =>
-    if name == "println" then
+    if name == "throw" then
+      let ca := cgArgs mod (ρS env.scopes) φ args env.lm
+      (ca.1 ++ [(.throw, csp)] ++ (if cty.isNull then [] else [(.drop, sp)]), { env with lm := ca.2 })
+    else if name == "println" then
       let ca := cgArgs mod (ρS env.scopes) φ args env.lm
       (ca.1 ++ [(.getGlob "println", csp), (.copyPush (.int args.length), csp), (.callVal, csp)],
         { env with lm := ca.2 })
@@ -338,28 +351,31 @@ namespace Frag
 
 mutual
 /-- The statement fragment; `inLoop`: `break`/`continue` are allowed. -/
-def okGS : Bool → Stmt → Bool
-  | _, .letS _ _ _ needsCast _ e => !needsCast && okGE e
-  | _, .exprS _ (.assign _ none (.ident _ _ _ false _ false) r) => okGE r
-  | _, .exprS _ (.assign _ (some op) (.ident _ _ _ false _ false) r) => !isLogical op && okGE r
-  | il, .exprS _ (.ifE _ ty c t (some eb)) => ty.isNull && okGE c && okGBS il t && okGBS il eb
-  | il, .exprS _ (.ifE _ ty c t none) => ty.isNull && okGE c && okGBS il t
-  | _, .exprS _ (.call csp cty (.ident isp ity name g f si) args sw) =>
-    if name == "println" then
+def okGS : Bool → Bool → Stmt → Bool
+  | _, _, .letS _ _ _ needsCast _ e => !needsCast && okGE e
+  | _, _, .exprS _ (.assign _ none (.ident _ _ _ false _ false) r) => okGE r
+  | _, _, .exprS _ (.assign _ (some op) (.ident _ _ _ false _ false) r) => !isLogical op && okGE r
+  | il, rt, .exprS _ (.ifE _ ty c t (some eb)) => ty.isNull && okGE c && okGBS il rt t && okGBS il rt eb
+  | il, rt, .exprS _ (.ifE _ ty c t none) => ty.isNull && okGE c && okGBS il rt t
+  | il, rt, .exprS _ (.tryE _ ty t _ c) => ty.isNull && okGBS false false t && okGBS il rt c
+  | _, _, .exprS _ (.call csp cty (.ident isp ity name g f si) args sw) =>
+    if name == "throw" then
+      !sw && decide (args.length = 1) && args.all (fun a => atomE a.2)
+    else if name == "println" then
       cty.isNull && !sw && okGArgs args && oneNonAtom args && decide (args.length < 2 ^ 64)
     else !cty.isNull && okGE (.call csp cty (.ident isp ity name g f si) args sw)
-  | _, .whileS _ c body => okGE c && okGBS true body
-  | _, .loopS _ body => okGBS true body
-  | il, .brk _ => il
-  | il, .cont _ => il
-  | _, .ret _ (some e) => okGE e
-  | _, _ => false
-def okGSs : Bool → List Stmt → Bool
-  | _, [] => true
-  | il, s :: ss => okGS il s && okGSs il ss
-def okGBS : Bool → Block → Bool
-  | il, .mk _ _ stmts none => okGSs il stmts
-  | _, _ => false
+  | _, rt, .whileS _ c body => okGE c && okGBS true rt body
+  | _, rt, .loopS _ body => okGBS true rt body
+  | il, _, .brk _ => il
+  | il, _, .cont _ => il
+  | _, rt, .ret _ (some e) => rt && okGE e
+  | _, _, _ => false
+def okGSs : Bool → Bool → List Stmt → Bool
+  | _, _, [] => true
+  | il, rt, s :: ss => okGS il rt s && okGSs il rt ss
+def okGBS : Bool → Bool → Block → Bool
+  | il, rt, .mk _ _ stmts none => okGSs il rt stmts
+  | _, _, _ => false
 end
 
 mutual
@@ -369,6 +385,7 @@ def depthGS : Stmt → Nat
   | .exprS _ (.ifE _ _ c t (some eb)) => max (depthGE c) (max (depthGBS t) (depthGBS eb)) + 2
   | .exprS _ (.ifE _ _ c t none) => max (depthGE c) (depthGBS t) + 2
   | .exprS _ (.call _ _ _ args _) => depthGArgs args + 2
+  | .exprS _ (.tryE _ _ t _ c) => max (depthGBS t) (depthGBS c) + 2
   | .whileS _ c body => max (depthGE c) (depthGBS body) + 1
   | .loopS _ body => depthGBS body + 1
   | .ret _ (some e) => depthGE e + 1
@@ -407,8 +424,19 @@ def wsGS (mod fn : String) (φ : String → Option String) : List (String × Str
     wsGE env.scopes φ c &&
       wsGBS mod fn φ loops t { env with lm := (freshLabel mod (freshLabel mod
         (cgE mod (ρS env.scopes) φ c env.lm).2 "if_after").2 "else").2 }
+  | loops, .exprS _ (.tryE _ _ t catchIdent (.mk _ _ cstmts none)), env =>
+    mod == "main" && φ fn == some (Hms.Core.Comp.mangleFnName mod fn) &&
+      wsGBS mod fn φ [] t { env with lm := (freshLabel mod (freshLabel mod env.lm "exception_label").2
+        "after_catch_label").2 } &&
+      wsGSs mod fn φ loops cstmts
+        (freshVar mod { (cgBS mod fn φ [] t { env with lm := (freshLabel mod (freshLabel mod env.lm
+          "exception_label").2 "after_catch_label").2 }).2 with
+          scopes := [] :: (cgBS mod fn φ [] t { env with lm := (freshLabel mod (freshLabel mod env.lm
+            "exception_label").2 "after_catch_label").2 }).2.scopes } catchIdent).2
   | _, .exprS _ (.call _ _ (.ident _ _ name _ _ _) args _), env =>
-    if name == "println" then
+    if name == "throw" then
+      (ρS env.scopes name).isNone && (φ name).isNone && wsGArgs env.scopes φ args
+    else if name == "println" then
       (ρS env.scopes name).isNone && (φ name).isNone && wsGArgs env.scopes φ args
     else (ρS env.scopes name).isNone && (φ name).isSome && wsGArgs env.scopes φ args
   | loops, .whileS _ c body, env =>
@@ -442,6 +470,7 @@ def identsGS : Stmt → List String
   | .exprS _ (.ifE _ _ c t (some eb)) => namesGE c ++ (identsGBS t ++ identsGBS eb)
   | .exprS _ (.ifE _ _ c t none) => namesGE c ++ identsGBS t
   | .exprS _ (.call _ _ (.ident _ _ name _ _ _) args _) => name :: namesGArgs args
+  | .exprS _ (.tryE _ _ t catchIdent c) => identsGBS t ++ (catchIdent :: identsGBS c)
   | .whileS _ c body => namesGE c ++ identsGBS body
   | .loopS _ body => identsGBS body
   | .ret _ (some e) => namesGE e
